@@ -208,16 +208,20 @@ theorem runReqs_inv (s : Store) (steps : List (Nat × Req)) (hI : Inv s.hist) (h
     intro hlag
     simpa [hlag] using hS.1
 
-/-- the store after `create`: one version, no index -/
-def initStore (news : List (List Row)) : Store :=
-  ⟨[⟨{ frags := addNews (fun _ => none) 0 news, nextFrag := news.length, indices := [] }, .append news⟩], 1⟩
+/-- the store after `create`: one version, no index; `stable` = enable_stable_row_ids -/
+def initStoreS (stable : Bool) (news : List (List Row)) : Store :=
+  ⟨[⟨{ frags := addNews (fun _ => none) 0 news, nextFrag := news.length, indices := [], stable := stable },
+      .append news⟩], 1⟩
+
+/-- a table without stable row ids (what the theorems are about) -/
+def initStore (news : List (List Row)) : Store := initStoreS false news
 
 theorem init_inv (news : List (List Row)) : Inv (initStore news).hist := by
   refine ⟨Chain.base _, ?_⟩
   intro v hv
-  simp only [initStore, List.mem_singleton] at hv
+  simp only [initStore, initStoreS, List.mem_singleton] at hv
   subst hv
-  refine ⟨?_, ⟨?_, ?_⟩, trivial⟩
+  refine ⟨?_, ⟨?_, ?_⟩, trivial, rfl⟩
   · intro i hi; cases hi
   · intro f hf
     have hf' : 0 + news.length ≤ f := by
